@@ -14,7 +14,7 @@ META = {
                   "move is determined), and no execution deadlocks or diverges before the result. The theorem is named _partial because values are naturals in the model: that "
                   "arguments/results of every shape cross unchanged or as references is C03/C04 plus this check's differential run over real connections. Exceptions carry "
                   "the ancestry of their class and call sites catch everything, nothing or the classes they name (isinstance on the ancestry); what the connection does to a class is a "
-                  "parameter xw of the machine: for EVERY xw the machine computes the evaluation seen through the connection (c01_machine_is_evaluation_through_connection), which is the "
+                  "parameter xw of the machine, one function per RECEIVING peer (differently configured ends are instances; the harness generates them): for EVERY xw the machine computes the evaluation seen through the connection (c01_machine_is_evaluation_through_connection), which is the "
                   "one-process evaluation when classes are reproduced (builtin classes; user-defined ones with the switches on). Under the default configuration a user-defined class "
                   "arrives as a stand-in derived from Exception (C09's gating): selective catching then differs from the local run - theorem "
                   "c01_selective_catch_refuted_when_class_replaced, known finding F46; the second harness phase (five exception classes incl. two user-defined, one outside Exception; "
@@ -278,7 +278,7 @@ def has_custom(t):
     return t["raises"] in ("NodeError", "Abort") or any(has_custom(k) for k, _ in t["kids"])
 
 
-def run_tree2(root, remote, cfg_extra):
+def run_tree2(root, remote, cfg_extra, cfg_extra_b=None):
     """one executor for both runs: a child on the other side is called through the connection when `remote`, directly otherwise.
     A node returns a result whose SHAPE varies: an int, a tuple mixing a value with a mutable list (a reference) and a callable, a bare
     callable, a bare list; the caller uses every part (reads the value, appends to the list, calls the callable) and the callee keeps its
@@ -339,7 +339,8 @@ def run_tree2(root, remote, cfg_extra):
                         return run(trees[nid], side)
                 return Svc()
             cfg = dict({"allow_public_attrs": True, "sync_request_timeout": 30}, **cfg_extra)
-            ca, cb, _, _ = connect_pair(make_service("A"), make_service("B"), cfg, cfg)
+            cfg_b = cfg if cfg_extra_b is None else dict({"allow_public_attrs": True, "sync_request_timeout": 30}, **cfg_extra_b)
+            ca, cb, _, _ = connect_pair(make_service("A"), make_service("B"), cfg, cfg_b)
             ends["A"], ends["B"] = ca, cb
         try:
             out = final(run(root, "A"), root)
@@ -365,8 +366,10 @@ def exception_phase(ctx, n, model=None):
     for i in range(n):
         root = gen_tree2(r, r.choice([1, 2, 3, 4] if ctx.quick else [2, 3, 4, 5, 6]), [0], side="A")
         lo = run_tree2(root, False, {})
-        for mode, extra in (("default", {}), ("custom-allowed", CUSTOM_OK)):
-            ro = run_tree2(root, True, extra)
+        for mode, extra, extra_b in (("default", {}, None), ("custom-allowed", CUSTOM_OK, None), ("A-default/B-allowed", {}, CUSTOM_OK), ("A-allowed/B-default", CUSTOM_OK, {})):
+            if "/" in mode and i % 2:
+                continue                    # the differently configured pairs on every other tree
+            ro = run_tree2(root, True, extra, extra_b)
             if run_tree2.last_crashes:
                 ctx.violation("serving-ended-by-exception", {"tree2": root, "mode": mode}, observed=run_tree2.last_crashes[:3], expected="every request answered",
                               what="an exception other than EOFError left one side's serving (its serving thread would have died with it)")
@@ -377,7 +380,8 @@ def exception_phase(ctx, n, model=None):
     # the same trees through the model: local evaluation, and the machine with the crossing table of the configuration in force
     outs = None
     if model:
-        outs = model.batch([[20 * size_of(root) + 50, depth_of(root) + 2, tree2_sx(root), DEFAULT_TABLE if mode == "default" else []] for root, mode, lo, ro in runs])
+        tbl = {"default": (DEFAULT_TABLE, DEFAULT_TABLE), "custom-allowed": ([], []), "A-default/B-allowed": (DEFAULT_TABLE, []), "A-allowed/B-default": ([], DEFAULT_TABLE)}
+        outs = model.batch([[20 * size_of(root) + 50, depth_of(root) + 2, tree2_sx(root), tbl[mode][0], tbl[mode][1]] for root, mode, lo, ro in runs])
     for i, (root, mode, lo, ro) in enumerate(runs):
         predicted = None
         if outs is not None:
@@ -397,7 +401,7 @@ def exception_phase(ctx, n, model=None):
         which = "result" if ro[0] != lo[0] else ("invocations-or-catches" if ro[1] != lo[1] else "callee-kept-objects")
         # the known deviation is exactly the one the model predicts from the default table (a user-defined class replaced by a stand-in
         # that is an Exception): anything else - also on a tree with user-defined classes - is a different violation
-        if mode == "default" and has_custom(root) and predicted is not False and which != "callee-kept-objects":
+        if mode != "custom-allowed" and has_custom(root) and predicted is not False and which != "callee-kept-objects":
             ctx.violation("custom-exception-class-lost:default-config", case, observed=repr(ro)[:300], expected=repr(lo)[:300],
                           what="a user-defined exception class raised on one peer is not caught by `except <its base class>` on the other under the default configuration (%s differ)" % which)
         else:
@@ -469,10 +473,11 @@ def replay(ctx, rep):
     if "tree2" in rep["case"]:
         root, mode = rep["case"]["tree2"], rep["case"]["mode"]
         lo = run_tree2(root, False, {})
-        ro = run_tree2(root, True, CUSTOM_OK if mode == "custom-allowed" else {})
+        cfgs = {"default": ({}, None), "custom-allowed": (CUSTOM_OK, None), "A-default/B-allowed": ({}, CUSTOM_OK), "A-allowed/B-default": (CUSTOM_OK, {})}[mode]
+        ro = run_tree2(root, True, cfgs[0], cfgs[1])
         ctx.case(("replay2", repr(root)), True)
         if ro != lo:
-            sig = "custom-exception-class-lost:default-config" if (mode == "default" and has_custom(root)) else "distributed-differs-from-local:replay"
+            sig = "custom-exception-class-lost:default-config" if (mode != "custom-allowed" and has_custom(root)) else "distributed-differs-from-local:replay"
             ctx.violation(sig, rep["case"], observed=repr(ro)[:300], expected=repr(lo)[:300], what="the two-peer run differs from the one-process run")
         return
     root = rep["case"]["tree"]
